@@ -198,10 +198,22 @@ def generate(task: Task):
                 f = ip.spec_bool(cond, s.old)
                 ctx.oblige(s, f'{qn}#no-raise-when:{nm}@path{pid}', 'raises', 'clause', z3.Not(f), note=cond)
         for cl in c.ensures:
-            f = ip.spec_bool(cl.proof_src(), s, extra=env, locals_visible=True)
+            try:
+                f = ip.spec_bool(cl.proof_src(), s, extra=env, locals_visible=True)
+            except EngineError as e:
+                if 'specification raises' not in str(e):
+                    raise
+                # the clause is undefined on this path (e.g. reads a field the path never set): the path
+                # must then be infeasible
+                ctx.oblige(s, f'{qn}#post:{cl.label}@path{pid}:clause-undefined-so-path-must-be-infeasible', 'post',
+                           cl.role, z3.BoolVal(False), note=f'{cl.src}   [{e}]')
+                continue
             o = ctx.oblige(s, f'{qn}#post:{cl.label}@path{pid}', 'post', cl.role, f, note=cl.src)
             if o is not None:
                 o.clause = cl
+            # clauses are proved in order; a later clause may rely on the earlier ones (each is an
+            # obligation of its own, so nothing is assumed that is not also proved)
+            s.assume(f)
         _frame_obligations(task, s, pid)
     # cover: requires satisfiable and some path returns (or raises as specified)
     st0 = State()
